@@ -263,7 +263,8 @@ impl World {
 
     /// Resolve a symbolic policy against a structure; `bad` injects an invalid element.
     fn resolve(&self, ap: &PolicySpec, st: &MStructure, bad: u8, for_enc: bool) -> (RPolicy, Vec<Conj>, &'static str) {
-        let mut rp = ap.resolve(&st.view());
+        // `*` operands only in policies without an injected invalid element
+        let mut rp = if bad % 16 == 0 { ap.resolve(&st.view()) } else { ap.without_stars().resolve(&st.view()) };
         let mut note = "";
         // the invalid element goes into the first or (when there are several clauses) the last one
         let gi = if rp.groups.len() > 1 && (ap.shape >> 7) & 1 == 1 { rp.groups.len() - 1 } else { 0 };
@@ -1146,7 +1147,7 @@ impl World {
             }
             Op::EncapsFor { mpk, usk, variant } => {
                 if self.usks.is_empty() {
-                    return self.exec(&Op::Encaps { mpk: *mpk, ap: PolicySpec { broadcast: true, groups: vec![], shape: 0 }, bad: 0 });
+                    return self.exec(&Op::Encaps { mpk: *mpk, ap: PolicySpec { broadcast: true, groups: vec![], shape: 0, stars: 0 }, bad: 0 });
                 }
                 let mi = self.mpk_index(*mpk);
                 let ui = pick(*usk, self.usks.len());
@@ -1283,6 +1284,30 @@ impl World {
                             return self.fail(&["C11", "C07"], "mlkem-ciphertext-not-bound", format!("encapsulation for {}: flipping a bit of an ML-KEM ciphertext still lets an authorized key obtain a secret", dnf_str(dnf)));
                         }
                         self.events.insert("mlkem-binding-probed");
+                    }
+                    // [C11] the ML-KEM layer must contribute: the same key with every ML-KEM
+                    // decapsulation key replaced by a valid but unrelated one must fail on an
+                    // encapsulation whose targets are all hybridized
+                    if let Some(k2) = ser(&self.usks[ui].key).ok().and_then(|b| WUsk::decode(&b).ok()).and_then(|mut wu| {
+                        let fdk = foreign_dk();
+                        let mut n = 0;
+                        for (_, chain) in wu.rights.iter_mut() {
+                            for sct in chain.iter_mut().filter(|x| x.hyb) {
+                                sct.dk = fdk.clone();
+                                n += 1;
+                            }
+                        }
+                        if n == 0 || fdk.is_empty() {
+                            None
+                        } else {
+                            de::<UserSecretKey>(&wu.encode()).ok()
+                        }
+                    }) {
+                        self.count("mlkem-dk-needed-probe");
+                        if let Ok(Some(_)) = self.cc.decaps(&k2, &enc) {
+                            return self.fail(&["C11"], "mlkem-key-not-needed", format!("encapsulation for {} (all targets hybridized): an authorized key whose ML-KEM decapsulation keys were all replaced by an unrelated key still obtains a secret", dnf_str(dnf)));
+                        }
+                        self.events.insert("mlkem-dk-needed-probed");
                     }
                 }
             }
@@ -1764,4 +1789,23 @@ fn errtxt<T>(r: &Result<T, Error>) -> String {
         Ok(_) => String::new(),
         Err(e) => short_err(e),
     }
+}
+
+/// A valid ML-KEM decapsulation key (wire form) unrelated to every key of the case: taken from
+/// a separate master key made once per process.
+fn foreign_dk() -> Vec<u8> {
+    static DK: std::sync::OnceLock<Vec<u8>> = std::sync::OnceLock::new();
+    DK.get_or_init(|| {
+        let mk = || -> Option<Vec<u8>> {
+            let cc = Covercrypt::default();
+            let (mut msk, _) = cc.setup().ok()?;
+            msk.access_structure.add_anarchy("F".into()).ok()?;
+            msk.access_structure.add_attribute(qa("F", "x"), hint(true), None).ok()?;
+            cc.update_msk(&mut msk).ok()?;
+            let w = WMsk::decode(&ser(&msk).ok()?).ok()?;
+            w.rights.iter().flat_map(|(_, c)| c.iter()).find(|(_, x)| x.hyb).map(|(_, x)| x.dk.clone())
+        };
+        mk().unwrap_or_default()
+    })
+    .clone()
 }
